@@ -635,6 +635,7 @@ PROPS["C05"] = {
                "notify/try_wait/blocking_wait steps; delivered == notified-and-undelivered; no sleep while pending",
           bounds="unwind 16; ids <= 3"),
         H("cal::c05ev::c05_ev_notify_races_wait", features=CAL, covers=2, timeout=3600, mem_gb=24,
+          native_space=[("usize", (0, 1, 2, 3)), ("usize", (0, 1, 2, 3)), ("u8", (1, 3))],
           unwindset={"bit_set&7set_bit": 2, "bit_set&9reset_all&.1": 2},
           what="a notification wakes the listener inside its wait call (or at the start of the drain) and a second one "
                "(id symbolic) completes while the collected ids are handed to the callback; the following wait delivers "
